@@ -3,6 +3,9 @@ from .values import Str, Env, INF, Int
 
 
 DERIVED = {}   # cell id -> (parent cell, inverse-image function name)
+VIEWS = {}     # cell of a base string -> [(private cell of a slice, base sid, minimum length of the base at which both denote the same character)]
+PRIV = {}      # private cell of a slice -> (cell of the base it copies, cells of the base outside the slice that the base cell may denote instead)
+OUTREV = {}    # base cell -> private cells that list it as an outside alternative
 ORIGIN = {}    # cell minted for one position of a variable-length string -> the summary cell it was split from (coverage only)
 
 
@@ -89,6 +92,13 @@ class StrOps:
             n = Str(s.pre, env.new_cell(body), suf, s.lo, s.hi, True)
         return n
 
+    def apply_views(self, env, s, minlen):
+        """s is known to have at least minlen characters: what slices learnt about positions that then exist holds for s."""
+        for c in s.pre + s.suf:
+            for v, bsid, need in VIEWS.get(c, ()) if not isinstance(c, frozenset) else ():
+                if bsid == s.sid and minlen >= need and v in env.store:
+                    env.store[c] = env.cls(c) & env.cls(v)
+
     def materialise(self, env, s, n):
         """Fixed string of length n equivalent to s restricted to that length."""
         if s.fixed:
@@ -96,6 +106,7 @@ class StrOps:
         if n < (s.lo or 0) or (s.hi is not None and n > s.hi):
             return None
         cells = []
+        self.apply_views(env, s, n)
         for i in range(n):
             p = s.pre[i] if i < len(s.pre) else None
             j = n - 1 - i
@@ -171,13 +182,41 @@ class StrOps:
             s = self.ensure_pre(env, s, need_pre if hi is None else min(need_pre, hi))
         if len(s.suf) < need_suf and (hi is None or hi > len(s.suf)):
             s = self.ensure_suf(env, s, need_suf if hi is None else min(need_suf, hi))
+        def private(cells, certain, outside=()):
+            """cells shared with the base only where they certainly belong to the slice; beyond that a copy:
+            for a short base the same cell would denote a character outside the slice.  The copy is a view
+            of the base cell once the base is known to be long enough (applied by materialise)."""
+            out = []
+            drop = a0 + (-b if b is not None else 0)
+            for k, c in enumerate(cells):
+                if k < certain or isinstance(c, frozenset):
+                    out.append(c)
+                else:
+                    cl = env.cls(c)
+                    for v, bsid, need in VIEWS.get(c, ()):
+                        # an earlier slice with the same bounds saw the same conditional character
+                        if bsid == s.sid and need == drop + k + 1 and v in env.store:
+                            cl = cl & env.cls(v)
+                    n = env.new_cell(cl)
+                    ORIGIN[n] = c
+                    VIEWS.setdefault(c, []).append((n, s.sid, drop + k + 1))
+                    PRIV[n] = (c, outside)
+                    for o in outside:
+                        if not isinstance(o, frozenset):
+                            OUTREV.setdefault(o, []).append(n)
+                    out.append(n)
+            return tuple(out)
         if a0 >= 0 and b is None:
             s = self.ensure_pre(env, s, a0)
-            return Str(s.pre[a0:], s.body, s.suf, max(0, lo - a0), None if hi is None else max(0, hi - a0), s.imprecise, parent=(s.sid, a0, 0), roots=(s.sid,) + s.roots)
+            nlo = max(0, lo - a0)
+            return Str(s.pre[a0:], s.body, private(s.suf, nlo, s.pre[:a0]) if a0 > 0 else s.suf, nlo, None if hi is None else max(0, hi - a0), s.imprecise,
+                       parent=(s.sid, a0, 0), roots=(s.sid,) + s.roots)
         if a0 >= 0 and b is not None and b < 0:
             s = self.ensure_pre(env, s, a0)
             s = self.ensure_suf(env, s, -b)
-            return Str(s.pre[a0:], s.body, s.suf[-b:], max(0, lo - a0 + b), None if hi is None else max(0, hi - a0 + b), s.imprecise, parent=(s.sid, a0, -b), roots=(s.sid,) + s.roots)
+            nlo = max(0, lo - a0 + b)
+            return Str(private(s.pre[a0:], nlo, s.suf[:-b]), s.body, private(s.suf[-b:], nlo, s.pre[:a0]) if a0 > 0 else s.suf[-b:], nlo, None if hi is None else max(0, hi - a0 + b), s.imprecise,
+                       parent=(s.sid, a0, -b), roots=(s.sid,) + s.roots)
         if a0 >= 0 and b is not None and b >= 0:
             if b <= a0:
                 return Str(())
@@ -235,6 +274,8 @@ class StrOps:
         env.store[cell] = new
         if not new and must:
             env.dead = True
+        if new != cur:
+            self.weak_propagate(env, cell)
         d = DERIVED.get(cell)
         if d is not None and new != cur:
             for parent, inv in (d if isinstance(d, list) else [d]):
@@ -244,6 +285,22 @@ class StrOps:
                     if keep != pc:
                         self.refine_cell(env, parent, keep, False)
 
+    def weak_propagate(self, env, cell):
+        """cell is a slice's private copy of a base cell: the base cell denotes either the same character or,
+        for a short base, one of the characters the slice dropped"""
+        for n in OUTREV.get(cell, ()):
+            if n in env.store:
+                self.weak_propagate(env, n)
+        pv = PRIV.get(cell)
+        if pv is None or pv[0] not in env.store:
+            return
+        c, outside = pv
+        weak = set(env.cls(cell))
+        for o in outside:
+            weak |= env.cls(o)
+        if not env.store[c] <= weak:
+            self.refine_cell(env, c, frozenset(weak), False)
+
     def refine_all(self, env, s, cls):
         """Every existing character of s is in cls."""
         if s.fixed:
@@ -252,11 +309,14 @@ class StrOps:
             return
         for c in s.pre + s.suf:
             # prefix/suffix cells may not exist for short strings; an empty class only kills
-            # the environment if the position must exist
+            # the environment if the position must exist (cells that could denote a character outside
+            # a slice are private copies, see slice())
             cur = env.cls(c)
             new = cur & cls
             if not isinstance(c, frozenset):
                 env.store[c] = new
+                if new != cur:
+                    self.weak_propagate(env, c)
         cur = env.cls(s.body)
         if not isinstance(s.body, frozenset):
             env.store[s.body] = cur & cls
@@ -323,6 +383,8 @@ class StrOps:
             return m
         n = Str(s.pre, s.body, s.suf, lo, hi, s.imprecise, s.parent, s.roots, s.sid)
         env.replace_value(s, n)
+        if lo > l0:
+            self.apply_views(env, n, lo)
         self._check_feasible(env, n)
         return n
 
